@@ -136,6 +136,9 @@ type Conn struct {
 	perspective protocol.Perspective
 	version     protocol.Version
 	config      *Config
+	// uStreamWindows holds the per-stream-type receive windows a QUICSpec advertised.
+	// nil unless the connection is spec-driven. [UQUIC]
+	uStreamWindows *uStreamReceiveWindows
 
 	conn      sendConn
 	sendQueue sender
@@ -2938,11 +2941,16 @@ func (c *Conn) newFlowController(id protocol.StreamID) flowcontrol.StreamFlowCon
 			initialSendWindow = c.peerParams.InitialMaxStreamDataBidiLocal
 		}
 	}
+	receiveWindow := protocol.ByteCount(c.config.InitialStreamReceiveWindow)
+	maxReceiveWindow := protocol.ByteCount(c.config.MaxStreamReceiveWindow)
+	if c.uStreamWindows != nil { // [UQUIC] enforce the window the QUICSpec advertised for this kind of stream
+		receiveWindow, maxReceiveWindow = c.uStreamWindows.forStream(id, c.perspective, receiveWindow, maxReceiveWindow)
+	}
 	return flowcontrol.NewStreamFlowController(
 		id,
 		c.connFlowController,
-		protocol.ByteCount(c.config.InitialStreamReceiveWindow),
-		protocol.ByteCount(c.config.MaxStreamReceiveWindow),
+		receiveWindow,
+		maxReceiveWindow,
 		initialSendWindow,
 		c.rttStats,
 		c.logger,
